@@ -842,6 +842,44 @@ def _check_r2(cfg):
             elif not (got == want or abs(got - want) <= 1e-12 * max(1.0, abs(want))):
                 bad.append(("r2:value:%s:%s" % (ta, ia), "r2_score_comparable(y, p, tr=%s, inv_tr=%s) != r2_score(tr(y), inv_tr(p))"
                             % (ta, ia), got, want))
+    # "tr=f" means f: a caller's own function is applied as given even when it is CALLED like one of the known names
+    # (def log(x): return numpy.log1p(x)), is a lambda, a functools.partial or a callable object
+    import functools
+    from mlinsights.metrics import scoring_metrics as _sm
+    names = sorted(k for k in getattr(_sm, "_known_functions", {}) if isinstance(k, str) and k.isidentifier()) or ["log", "exp"]
+
+    class Shift:
+        def __init__(self, c):
+            self.c = c
+            self.__name__ = "log"
+
+        def __call__(self, a):
+            return numpy.asarray(a) * 2.0 + self.c
+    own = []
+    for nm in names:
+        def f(a):
+            return numpy.log1p(numpy.asarray(a)) * 3.0 + 1.0
+        f.__name__ = nm
+        f.__qualname__ = nm
+        own.append(("function named %s" % nm, f))
+    own.append(("partial(numpy.power, 2.0)", functools.partial(numpy.power, 2.0)))
+    own.append(("callable object with __name__ = 'log'", Shift(0.5)))
+    for label, f in own:
+        for targ, iarg in ((f, f), (f, None), (None, f), ("log", f)):
+            kw = {} if w is None else {"sample_weight": w}
+            tf = numpy.log if targ == "log" else targ
+            want = r2_score(tf(y) if tf else y, iarg(p) if iarg else p, **kw)
+            try:
+                got = r2_score_comparable(y, p, tr=targ, inv_tr=iarg, **kw)
+            except Exception as e:  # noqa: BLE001
+                bad.append(("r2:raises", "r2_score_comparable raises %s for a caller's %s" % (type(e).__name__, label),
+                            "%s: %s" % (type(e).__name__, e), want))
+                continue
+            if not (got == want or abs(got - want) <= 1e-12 * max(1.0, abs(want))):
+                bad.append(("r2:value:own-function", "r2_score_comparable(y, p, tr=f, inv_tr=g) != r2_score(f(y), g(p)) when "
+                            "f / g is the caller's own %s (tr=%s, inv_tr=%s)"
+                            % (label, "f" if callable(targ) else targ, "f" if callable(iarg) else iarg), got, want))
+                break
     # several targets per row (a table): the plain call is still r2_score of the transformed tables (its defaults)
     if n >= 4 and not cfg.get("weights"):
         Y = numpy.column_stack([y, y[::-1] * 7.0 + 1.0, (y + 0.3) ** 2])
